@@ -9,6 +9,9 @@
 
 pub(crate) mod common;
 pub(crate) mod spec;
+mod c01;
+mod c08;
 mod c10;
 mod wrappers;
 mod c15;
+mod c16;
